@@ -232,6 +232,25 @@ def eval_state(acc, mr, base, Ml, Gl, S, q, V, sidx):
                 acc.resid("fd_inverts_id", r)
                 if not r <= REL:
                     acc.violation("fd_inverts_id", case(qd=qd, qdd=qdd, g=g, F=F), {"rel_torque_space": r, "qdd_back": back}, REL)
+        # rates and wrench components that CANCEL in a plain sum without being zero (a lazy "is it all zero?" test sums them)
+        if n >= 2:
+            for qd_c in ([np.array(([1.5, -1.5] + [0.0] * n)[:n])] + ([np.array(([2.0, -3.0, 1.0] + [0.0] * n)[:n])] if n >= 3 else [])):
+                F_c = np.array([0.0, 0.0, 3.0, 0.0, 0.0, -3.0])
+                qdd, g = V.qdd[n + 1], V.g[4]
+                tau = call("InverseDynamics", mr.InverseDynamics, q, qd_c, qdd, g, F_c, Ml, Gl, S)
+                cq_c = call("VelQuadraticForces", mr.VelQuadraticForces, q, qd_c, Ml, Gl, S)
+                eF_c = call("EndEffectorForces", mr.EndEffectorForces, q, F_c, Ml, Gl, S)
+                terms = (M @ qdd, cq_c, gq[4], eF_c)
+                T = max(1.0, amax(tau), *[amax(t) for t in terms])
+                acc.evals += 2
+                r = amax(tau - sum(terms)) / T if finite(tau) else np.inf
+                if not r <= REL:
+                    acc.violation("decomposition", case(qd=qd_c, qdd=qdd, g=g, F=F_c, cancelling=True), {"rel": r, "tau": tau}, REL)
+                back = call("ForwardDynamics", mr.ForwardDynamics, q, qd_c, tau, g, F_c, Ml, Gl, S)
+                r = amax(M @ (np.asarray(back, float) - qdd)) / T if np.shape(back) == (n,) and finite(back) else np.inf
+                acc.resid("fd_inverts_id", r)
+                if not r <= REL:
+                    acc.violation("fd_inverts_id", case(qd=qd_c, qdd=qdd, g=g, F=F_c, cancelling=True), {"rel_torque_space": r, "qdd_back": back}, REL)
         qd, g, F = V.qd[-1], V.g[-1], V.F[-1]
         for tau in V.tau:
             a = call("ForwardDynamics", mr.ForwardDynamics, q, qd, tau, g, F, Ml, Gl, S)
